@@ -639,6 +639,10 @@ structure FirstRound (fx : Fixes) (os : Str) (orc : Oracle) (flt : Str → Bool)
   built : All2 (Built os) (parseFile os (updateFileF fx os orc flt f)) cs
   form : updateFileF fx os orc flt f =
     preamble os (updateFileF fx os orc flt f) ++ writeTests ((firstSuffix (splitIncl (updateFileF fx os orc flt f))).getD []) cs
+  /-- the text in front of the first test is untouched -/
+  pre : preamble os (updateFileF fx os orc flt f) = preamble os f
+  /-- the file keeps its delimiter suffix -/
+  suf : (firstSuffix (splitIncl (updateFileF fx os orc flt f))).getD [] = (firstSuffix (splitIncl f)).getD []
 
 theorem first_round (fx : Fixes) (hk : fx.keepUnrun = true) (ho : fx.oneCorrection = true)
     (hsp : fx.keepSuffixPreamble = true) (hkc : fx.keepCstFiltered = true)
@@ -722,7 +726,8 @@ theorem first_round (fx : Fixes) (hk : fx.keepUnrun = true) (ho : fx.oneCorrecti
     unfold preamble
     simp only [hlines1, hfs1]
     rw [preambleLines_of_noHdr fs os _ hsome1 pre hnoh1]
-  refine ⟨hall, by rw [h1]; exact hbuilt, ?_⟩
+  have hpre0 : preamble os f = pre.flatten := by simp [preamble, hfs, hpre]
+  refine ⟨hall, by rw [h1]; exact hbuilt, ?_, by rw [h1, hpre1, hpre0], by rw [h1, hlines1, hfs1, hsuf, hfs, hsuf]⟩
   rw [h1, hpre1, hlines1, hfs1, hsuf]
 
 /-- `update_idempotent_general` (model with the committed repairs): for every corpus file — with or without text
@@ -741,7 +746,7 @@ theorem update_idempotent_general (fx : Fixes) (hk : fx.keepUnrun = true) (ho : 
     (hsimple : ∀ c ∈ cs, SimpleS ((firstSuffix (splitIncl f)).getD []) c)
     (hse : SufOK '=' ((firstSuffix (splitIncl f)).getD [])) (hsd : SufOK '-' ((firstSuffix (splitIncl f)).getD [])) :
     updateFileF fx os orc flt (updateFileF fx os orc flt f) = updateFileF fx os orc flt f := by
-  obtain ⟨hall, hbuilt, hform⟩ := first_round fx hk ho hsp hkc os orc flt f cs hne hrun
+  obtain ⟨hall, hbuilt, hform, _, _⟩ := first_round fx hk ho hsp hkc os orc flt f cs hne hrun
     (fun e he => (hent e he).langs) hsimple hse hsd
   have h2 := updateEntriesF_second fx hk ho hkc orc flt os hall _ [] hbuilt hent hcanon
   simp only [List.nil_append] at h2
@@ -756,6 +761,69 @@ theorem update_idempotent_general (fx : Fixes) (hk : fx.keepUnrun = true) (ho : 
   · next h => exact absurd h hne1
   · simp only [h2, hsp, ↓reduceIte]
     exact hform.symm
+
+/-- `update_preserves_general` (model with the committed repairs): under the hypotheses of `update_idempotent_general` the
+(filtered) update rewrites only expected outputs — the file reads back with the same tests in the same
+order, each with the same name, attribute text, attribute FLAGS, input and delimiter lengths; the text in
+front of the first test and the delimiter suffix are unchanged.  (No test is dropped, duplicated, merged or
+split: `All2` relates the two entry lists position by position.) -/
+theorem update_preserves_general (fx : Fixes) (hk : fx.keepUnrun = true) (ho : fx.oneCorrection = true)
+    (hsp : fx.keepSuffixPreamble = true) (hkc : fx.keepCstFiltered = true)
+    (os : Str) (orc : Oracle) (flt : Str → Bool) (f : Str) (cs : List Correction)
+    (hne : parseFile os f ≠ [])
+    (hrun : updateEntriesF fx orc flt (parseFile os f) [] = some cs)
+    (hlangs : ∀ e ∈ parseFile os f, e.attrs.languages ≠ [])
+    (hcanon : ∀ e ∈ parseFile os f, e.attrs = flagsOf os e.name e.attrsStr)
+    (hsimple : ∀ c ∈ cs, SimpleS ((firstSuffix (splitIncl f)).getD []) c)
+    (hse : SufOK '=' ((firstSuffix (splitIncl f)).getD [])) (hsd : SufOK '-' ((firstSuffix (splitIncl f)).getD [])) :
+    All2 (fun e e1 => e1.key = e.key ∧ e1.hlen = e.hlen ∧ e1.dlen = e.dlen)
+        (parseFile os f) (parseFile os (updateFileF fx os orc flt f)) ∧
+      preamble os (updateFileF fx os orc flt f) = preamble os f ∧
+      (firstSuffix (splitIncl (updateFileF fx os orc flt f))).getD [] = (firstSuffix (splitIncl f)).getD [] := by
+  obtain ⟨hall, hbuilt, _, hpre, hsuf⟩ := first_round fx hk ho hsp hkc os orc flt f cs hne hrun hlangs hsimple hse hsd
+  refine ⟨?_, hpre, hsuf⟩
+  have hcomp := all2_comp hall hbuilt
+  have hmem : ∀ {es e1s : List Entry}, (∀ e ∈ es, e.attrs = flagsOf os e.name e.attrsStr ∧ e.attrs.languages ≠ []) →
+      All2 (fun e e1 => ∃ c, StepOf fx orc flt e c ∧ Built os e1 c) es e1s →
+      All2 (fun e e1 => e1.key = e.key ∧ e1.hlen = e.hlen ∧ e1.dlen = e.dlen) es e1s := by
+    intro es e1s hes hh
+    induction hh with
+    | nil => exact All2.nil
+    | @cons e e1 _ _ hx _ ih =>
+      refine All2.cons ?_ (ih (fun x hx' => hes x (by simp [hx'])))
+      obtain ⟨c, hstep, hb⟩ := hx
+      have hd := hb.1
+      simp only [Entry.dkey, Correction.dkey, Prod.mk.injEq] at hd
+      have hkeys : c.name = e.name ∧ c.attrsStr = e.attrsStr ∧ c.input = e.input ∧ c.hlen = e.hlen ∧ c.dlen = e.dlen := by
+        unfold StepOf at hstep
+        split at hstep
+        · have hcs := updateEntry_spec fx orc e [c] hstep
+          have hs := hcs.1 c (by simp)
+          simp only [Correction.skey, Entry.skey, Prod.mk.injEq] at hs
+          -- the delimiter lengths come with `e.corr _`
+          have hform : ∃ o, c = e.corr o := by
+            by_cases hu : unrun e = true
+            · rw [updateEntry_unrun fx hk orc e hu] at hstep
+              simp only [Step.cont.injEq, List.cons.injEq, and_true] at hstep
+              exact ⟨_, hstep.symm⟩
+            · have hu' : unrun e = false := by simpa using hu
+              rw [updateEntry_run fx orc e hu'] at hstep
+              obtain ⟨l, ls, hls⟩ : ∃ l ls, e.attrs.languages = l :: ls := by
+                cases hq : e.attrs.languages with
+                | nil => exact absurd hq (hes e (by simp)).2
+                | cons l ls => exact ⟨l, ls, rfl⟩
+              rw [hls] at hstep
+              obtain ⟨a, _, hc, _⟩ := (updateLangs_head fx ho orc e l ls [c]).mp hstep
+              simp only [List.cons.injEq, and_true] at hc
+              exact ⟨_, hc⟩
+          obtain ⟨o, ho'⟩ := hform
+          exact ⟨hs.1, hs.2.1, hs.2.2, by rw [ho']; rfl, by rw [ho']; rfl⟩
+        · rw [hstep]; exact ⟨rfl, rfl, rfl, rfl, rfl⟩
+      have hattrs : e1.attrs = e.attrs := by rw [hb.2.1, (hes e (by simp)).1, hkeys.1, hkeys.2.1]
+      refine ⟨?_, hd.2.2.2.1.trans hkeys.2.2.2.1, hd.2.2.2.2.trans hkeys.2.2.2.2⟩
+      simp only [Entry.key, Key.mk.injEq]
+      exact ⟨hd.1.trans hkeys.1, hd.2.1.trans hkeys.2.1, hattrs, hd.2.2.1.trans hkeys.2.2.1⟩
+  exact hmem (fun e he => ⟨hcanon e he, hlangs e he⟩) hcomp
 
 /-- Entry `e1` (read back after the update) is entry `e`, and passes if `e` is run and parses without error. -/
 def PassesAfterG (orc : Oracle) (flt : Str → Bool) (e e1 : Entry) : Prop :=
@@ -780,7 +848,7 @@ theorem update_passes_general (fx : Fixes) (hk : fx.keepUnrun = true) (ho : fx.o
     (hsimple : ∀ c ∈ cs, SimpleS ((firstSuffix (splitIncl f)).getD []) c)
     (hse : SufOK '=' ((firstSuffix (splitIncl f)).getD [])) (hsd : SufOK '-' ((firstSuffix (splitIncl f)).getD [])) :
     All2 (PassesAfterG orc flt) (parseFile os f) (parseFile os (updateFileF fx os orc flt f)) := by
-  obtain ⟨hall, hbuilt, _⟩ := first_round fx hk ho hsp hkc os orc flt f cs hne hrun
+  obtain ⟨hall, hbuilt, _, _, _⟩ := first_round fx hk ho hsp hkc os orc flt f cs hne hrun
     (fun e he => (hent e he).langs) hsimple hse hsd
   have hcomp := all2_comp hall hbuilt
   have hmem : ∀ {es e1s : List Entry}, (∀ e ∈ es, EntryOKG orc e ∧ e.attrs = flagsOf os e.name e.attrsStr) →
